@@ -1,4 +1,7 @@
 mod c02;
+mod c09;
+mod c10;
+mod c16;
 mod gen;
 mod inv;
 mod model;
